@@ -24,11 +24,11 @@ type Node struct {
 	V any
 }
 
-func Void() Node          { return Node{"v", 0} }
-func Null() Node          { return Node{"z", 0} }
-func Num(i int) Node      { return Node{"n", i} }
-func Str(s string) Node   { return Node{"s", s} }
-func Arr(l ...Node) Node  { return Node{"A", append([]Node{}, l...)} }
+func Void() Node            { return Node{"v", 0} }
+func Null() Node            { return Node{"z", 0} }
+func Num(i int) Node        { return Node{"n", i} }
+func Str(s string) Node     { return Node{"s", s} }
+func Arr(l ...Node) Node    { return Node{"A", append([]Node{}, l...)} }
 func (n Node) IsVoid() bool { return n.K == "v" }
 
 func (n Node) MarshalJSON() ([]byte, error) {
